@@ -209,7 +209,11 @@ def check(ctx, prop):
         "samples": [scheds[0], scheds[-1], [{k2: v for k2, v in r.items() if k2 != "rst"} for r in runs[0][:4]]],
     }
     if not quick:
-        cov["action_coverage"] = {k2: v[1] for k2, v in mc.action_coverage().items()}
+        ac = {k2: v[1] for k2, v in mc.action_coverage().items()}
+        cov["action_coverage"] = ac
+        dead = [a for a in ("Join", "Sync", "Heartbeat", "Leave", "Commit", "DeleteGroups", "Tick", "Failover") if a in ac and ac[a] == 0]
+        if dead or not ac:
+            raise Broken("vacuous exhaustive run: actions never taken or no coverage output: %s" % dead)
     return verdict(ctx, violations, level, cov, [
         "every public method of GroupCoordinator is one critical section under c.mu and returns synchronously, so sequential histories cover all interleavings of complete calls (the OffsetCommit check/write window is not split)",
         "one cleanup per tick: CleanupInterval = 1 s of synctest virtual time, requests arrive at whole seconds",
